@@ -456,7 +456,11 @@ def judge(cases, impl, model, replay=False):
                 findings.append(core.Finding(
                     "violation",
                     {"family": "footprint", "component": comp, "entry": seg["entry"],
-                     "mode": "file" if seg["fm"] else "nonfile"},
+                     "mode": "file" if seg["fm"] else "nonfile",
+                     "cause": ("expansion-clauses-of-a-non-file-source"
+                               if (not seg["fm"] and "texp" in features(c, seg["text"]).split(",")
+                                   and comp in ("skeleton_clauses", "skeleton_clause_locs", "local_clause_locs"))
+                               else "-")},
                     "%s after load %d of the same text = %s, after load 1 = %s (text %d, entry %s, directives in the text: %s, queries between the loads: %s)"
                     % (comp, n, b, a, seg["text"], ek, features(c, seg["text"]), "yes" if seg["between"] else "no"), slim(case)))
                 ok = False
